@@ -5,6 +5,7 @@ mod common;
 mod dump;
 mod gen;
 mod matrix;
+mod stream;
 
 use std::collections::HashMap;
 
@@ -71,6 +72,16 @@ fn main() {
                 get("flav", "all").split(',').map(|x| x.to_string()).collect();
             let f = calls::Filter { mks, ans, flav };
             let st = calls::run(&out, shards, &fam, seed, scale, &f);
+            println!("{{\"contexts\":{},\"events\":{}}}", st.contexts, st.events);
+        }
+        "stream" => {
+            let fam = get("family", "enum");
+            let scale: usize = get("scale", "1").parse().unwrap();
+            let faults = get("faults", "false") == "true";
+            let maxstream: usize = get("maxstream", "4").parse().unwrap();
+            let sizes: Vec<usize> =
+                get("sizes", "1,2,3").split(',').map(|x| x.parse().unwrap()).collect();
+            let st = stream::run(&out, shards, &fam, seed, scale, faults, maxstream, &sizes);
             println!("{{\"contexts\":{},\"events\":{}}}", st.contexts, st.events);
         }
         "matrix" => {
